@@ -17,18 +17,25 @@ EPS = Fraction(1, 10**18)
 N_BARS = 7
 
 
-def make_world():
+def make_world(resampled=False):
     from mc.worlds import aave
     from mc.worlds.catalog import World
     from mc.worlds.kit import Ctx
     from demeter._typing import USD
 
-    frames = aave.make_data(N_BARS)
-    prices = aave.price_frame(N_BARS)
+    k = 3 if resampled else 1  # (the index steps repeat every four minutes: a bar length that is no divisor or multiple of that)
+    frames = aave.make_data(N_BARS * k)
+    prices = aave.price_frame(N_BARS * k)
+    if resampled:
+        # three one-minute rows per bar, the market's data resampled by the repository's own _resample (as Actuator.switch_interval does): a bar stamped t carries
+        # the indices of time t, so "index now" is the index at the bar's timestamp (the per-minute steps differ, the path is not geometric)
+        prices = prices.iloc[::k]
     toks = [aave.WETH, aave.USDC, aave.DAI]
 
     def build():
         m = aave.make_market(frames)
+        if resampled:
+            m._resample("3min")
         ad = aave.AaveAdapter(m, frames)
         ctx = Ctx("aave", prices, USD, [ad], [(aave.WETH, 100), (aave.USDC, 300000), (aave.DAI, 300000)], prices.index)
         ctx.begin_bar(0)
@@ -366,8 +373,8 @@ class Oracle:
 
 
 def run_partition(args):
-    seed, depth, dev, first = args
-    world = make_world()
+    seed, depth, dev, first = args[:4]
+    world = make_world(resampled=len(args) > 4 and args[4])
     part = Part(seed)
     orc = Oracle(part, world)
     stats = kit.explore(world.build, alphabet(world), depth, dev, orc.on_transition, on_state=orc.on_state, roots=((),), first=first)
@@ -382,6 +389,7 @@ def main(run: Run):
     ctx = world.build()
     labels = [o.label for o in alphabet(world)(ctx)]
     jobs = [(run.seed, depth, dev, frozenset([l])) for l in run.rotate(labels)]
+    jobs += [(run.seed, depth - 1, dev, frozenset(labels[i::4]), True) for i in range(4)]  # the same alphabet on three-minute bars resampled from minute rows
     tot = {"states": 0, "transitions": 0, "complete": 0}
     for r in pmap(run_partition, jobs):
         run.merge(r)
